@@ -991,6 +991,8 @@ void QXmppClient::_q_streamConnected(const QXmpp::Private::SessionBegin &session
 
     // send initial presence
     if (d->stream->isAuthenticated() && streamManagementState() != ResumedStream) {
+        // extensions may have been added since the presence was set
+        d->addProperCapability(d->clientPresence);
         sendPacket(d->clientPresence);
     }
 }
